@@ -136,7 +136,16 @@ fn product_case(rng: &mut Rng, rep: &mut Report, idx: u64) {
     for k in 1..n {
         let by_then = m.then(&mats[k]);
         let by_compose = mats[k].compose(&m);
-        if by_then.0.map(|r| r.map(f32::to_bits)) != by_compose.0.map(|r| r.map(f32::to_bits)) {
+        // "then() is compose() with the operands swapped": the same product;
+        // identical bits as the library has it today are counted, a separate
+        // loop may sum in another order (a few ulps of the largest term)
+        let same_bits = by_then.0.map(|r| r.map(f32::to_bits)) == by_compose.0.map(|r| r.map(f32::to_bits));
+        if same_bits {
+            rep.count("then_bit_identical_to_swapped_compose");
+        }
+        let big = by_then.0.iter().flatten().chain(by_compose.0.iter().flatten()).fold(0.0f32, |a, x| a.max(x.abs())).max(1.0);
+        let max_d = by_then.0.iter().flatten().zip(by_compose.0.iter().flatten()).fold(0.0f32, |a, (x, y)| a.max((x - y).abs()));
+        if !same_bits && !(max_d <= 16.0 * f32::EPSILON * big * big) {
             rep.violation("mat.then_ne_compose_swapped", "a.then(b) differs from b.compose(a)".into(), cj());
             return;
         }
@@ -265,7 +274,9 @@ fn constructor_case(rng: &mut Rng, rep: &mut Report) {
     let (s, c) = ((a as f64).sin(), (a as f64).cos());
     let mut bad: Option<String> = None;
     let mut chk = |name: &str, got: [f32; 3], exp: [f64; 3]| {
-        if bad.is_none() && !close(got, exp, 2e-5 * 20.0) {
+        // (an angle of 1e4 rad is known to 6e-4 rad at best: a representation
+        // in another unit or an f32 range reduction costs one rounding of it)
+        if bad.is_none() && !close(got, exp, 2e-5 * 20.0 + 2.0 * 1.2e-7 * (a.abs() as f64) * 17.5) {
             bad = Some(format!("{name}: got {got:?}, expected {exp:?}"));
         }
     };
@@ -305,8 +316,20 @@ fn constructor_case(rng: &mut Rng, rep: &mut Report) {
         rep.count("rotations_checked");
     }
     // orient_y / orient_z
-    let ny = [rng.f32_in(-1.0, 1.0), rng.f32_in(-1.0, 1.0), rng.f32_in(-1.0, 1.0)];
-    let x = [rng.f32_in(-1.0, 1.0), rng.f32_in(-1.0, 1.0), rng.f32_in(-1.0, 1.0)];
+    let mut ny = [rng.f32_in(-1.0, 1.0), rng.f32_in(-1.0, 1.0), rng.f32_in(-1.0, 1.0)];
+    let mut x = [rng.f32_in(-1.0, 1.0), rng.f32_in(-1.0, 1.0), rng.f32_in(-1.0, 1.0)];
+    // every other case with unit inputs (oblique to each other as a rule):
+    // there the docs promise an orthonormal result, i.e. a rotation, and
+    // lengths are judged; for other lengths only directions are
+    let unit_inputs = rng.bool();
+    if unit_inputs {
+        let nrm = |v: [f32; 3]| {
+            let l = v.iter().map(|c| (*c as f64).powi(2)).sum::<f64>().sqrt().max(1e-12);
+            v.map(|c| (c as f64 / l) as f32)
+        };
+        ny = nrm(ny);
+        x = nrm(x);
+    }
     let n64 = ny.map(|v| v as f64);
     let x64 = x.map(|v| v as f64);
     let cr = geo::cross3(x64, n64);
@@ -349,7 +372,26 @@ fn constructor_case(rng: &mut Rng, rep: &mut Report) {
             let e_x = (0..3).map(|i| (ax[i] - want_x[i]).abs()).fold(0.0, f64::max);
             rep.worst("orient_axis_err/tol", (e_other / (4e-6 * cond)).max(e_x / (4e-6 * cond * geo::len3(n64).max(1.0))), 1.0, String::new);
             let axes_ok = e_other <= 4e-6 * cond && e_x <= 4e-6 * cond * geo::len3(n64).max(1.0);
-            if !(e_main <= 1e-6 && ortho <= 1e-5 && unit <= 1e-5 && det > 0.0 && ortho_x <= 1e-5 * geo::len3(n64).max(1.0) && axes_ok) {
+            // Judged by directions: the docs promise "parallel with the new
+            // axis" and an orthogonal, right-handed basis (orthonormal for unit
+            // input); what lengths the images get for non-unit input —
+            // |new|, 1 and |new| today — is recorded, not demanded.
+            let dirn = |v: [f64; 3]| {
+                let l = geo::len3(v).max(1e-300);
+                v.map(|c| c / l)
+            };
+            let dmax = |a: [f64; 3], b: [f64; 3]| (0..3).map(|i| (a[i] - b[i]).abs()).fold(0.0, f64::max);
+            let dir_ok = dmax(dirn(main), dirn(n64)) <= 2e-6 && dmax(dirn(other), dirn(want_other)) <= 4e-6 * cond && dmax(dirn(ax), dirn(want_x)) <= 4e-6 * cond;
+            let ortho_n = geo::dot3(dirn(other), dirn(n64)).abs().max(geo::dot3(dirn(ax), dirn(main)).abs()).max(geo::dot3(dirn(ax), dirn(other)).abs());
+            if e_main <= 1e-6 && unit <= 1e-5 && axes_ok && ortho <= 1e-5 && ortho_x <= 1e-5 * geo::len3(n64).max(1.0) {
+                rep.count("orient.lengths_as_today(|new|, 1, |new|)");
+            }
+            // unit inputs: an orthonormal basis — all three images of unit length
+            let lens_ok = !unit_inputs || [main, other, ax].iter().all(|v| (geo::len3(*v) - 1.0).abs() <= 2e-5 * cond);
+            if unit_inputs {
+                rep.count("orient.unit_inputs(lengths judged)");
+            }
+            if !(dir_ok && ortho_n <= 1e-5 && det > 0.0 && lens_ok) {
                 rep.violation("mat.orient_effect", format!("{name}(new={ny:?}, x={x:?}): image of the oriented axis {main:?}, other axis {other:?} (·new={:.2e}, ·x={:.2e}, |.|−1={unit:.2e}), det {det:.3}", geo::dot3(other, n64), geo::dot3(other, x64)), cj());
                 return;
             }
@@ -400,7 +442,11 @@ fn mat3_case(rng: &mut Rng, rep: &mut Report) {
     let seq = ma.apply_pt(&mb.apply_pt(&pt2(p[0], p[1]))).0;
     let e64 = geo::apply3(&exp, [p[0] as f64, p[1] as f64, 1.0]);
     let v = ab.apply(&vec2(p[0], p[1])).0;
-    if !(0..2).all(|c| (whole[c] as f64 - e64[c]).abs() <= 1e-3 && (seq[c] as f64 - e64[c]).abs() <= 1e-3) || v.map(f32::to_bits) != whole.map(f32::to_bits) {
+    // vectors: the documented implicit-1 semantics or the statement's "linear
+    // part on vectors" (as for 4×4)
+    let lin64 = geo::apply3(&exp, [p[0] as f64, p[1] as f64, 0.0]);
+    let vec_ok = (0..2).all(|c| (v[c] as f64 - e64[c]).abs() <= 1e-3) || (0..2).all(|c| (v[c] as f64 - lin64[c]).abs() <= 1e-3);
+    if !(0..2).all(|c| (whole[c] as f64 - e64[c]).abs() <= 1e-3 && (seq[c] as f64 - e64[c]).abs() <= 1e-3) || !vec_ok {
         rep.violation("mat.apply_composite_ne_sequence", format!("3x3: composite {whole:?}, sequence {seq:?}, f64 {:?}, apply(vec) {v:?}", &e64[..2]), cj());
         return;
     }
@@ -415,21 +461,28 @@ fn mat3_case(rng: &mut Rng, rep: &mut Report) {
 /// All 24 row orders of a scaled permutation (plus noise): every pivot
 /// pattern of the elimination.
 fn pivot_case(rep: &mut Report, rng: &mut Rng, k: u64) {
+    // The statement's inverse clause is about *affine* transforms: the last
+    // row stays (0,0,0,1) (an inverse specialised for affine matrices, or a
+    // debug assertion on that row, is legitimate). All six orders of the three
+    // linear rows, with and without noise, plus a translation column; zeros on
+    // the diagonal are exact, so every order needs its row exchanges.
     let mut perm = [0usize, 1, 2, 3];
-    // k-th permutation (Lehmer)
-    let mut pool = vec![0usize, 1, 2, 3];
-    let mut kk = k % 24;
-    for i in 0..4 {
-        let f = [6, 2, 1, 1][i];
+    let mut pool = vec![0usize, 1, 2];
+    let mut kk = k % 6;
+    for i in 0..3 {
+        let f = [2, 1, 1][i];
         perm[i] = pool.remove((kk / f) as usize);
         kk %= f;
     }
+    let noisy = (k / 6) % 2 == 1;
     let mut m = [[0.0f32; 4]; 4];
-    for r in 0..4 {
-        for c in 0..4 {
-            m[r][c] = if perm[r] == c { rng.sign() * rng.log_f32(0.5, 2.0) } else if rng.chance(1, 3) { rng.f32_in(-0.05, 0.05) } else { 0.0 };
+    for r in 0..3 {
+        for c in 0..3 {
+            m[r][c] = if perm[r] == c { rng.sign() * rng.log_f32(0.5, 2.0) } else if noisy && rng.chance(1, 3) { rng.f32_in(-0.05, 0.05) } else { 0.0 };
         }
+        m[r][3] = if rng.chance(1, 2) { rng.f32_in(-5.0, 5.0) } else { 0.0 };
     }
+    m[3][3] = 1.0;
     let mut hs = Hasher::new();
     for r in &m {
         hs.f32s(r);
@@ -515,6 +568,7 @@ pub fn run(cfg: &Cfg, rep: &mut Report) {
     rep.floor("orient_checked", 50_000);
     rep.floor("mat3_checks", 100_000);
     rep.floor("pivot_inverses", 24 * 1_000);
+    rep.floor("orient.unit_inputs(lengths judged)", 20_000);
     rep.floor("dense_4x4_checks", 20_000);
     let _: Option<Vec3> = None;
 }
